@@ -358,3 +358,125 @@ theorem store_lookup (hk : KeyOk hash eqv) (t : Tbl K V) (hinv : Inv hash eqv t)
 end
 
 end Elk.HashMap
+
+namespace Elk.HashMap
+variable {K V : Type} {hash : K → Nat} {eqv : K → K → Bool}
+
+/-! ### delete -/
+
+/-- `Delete` removes exactly the binding of `key`, keeps the invariant, reports whether there was one -/
+theorem delete_spec (hk : KeyOk hash eqv) (t : Tbl K V) (hinv : Inv hash eqv t) (key : K) :
+    ∃ t' b, delete hash eqv t key = .ok (t', b) ∧ Inv hash eqv t' ∧ t'.cap = t.cap ∧
+      b = (lookupL eqv t.toList key).isSome ∧
+      ∀ q, lookupL eqv t'.toList q = if eqv key q then none else lookupL eqv t.toList q := by
+  cases hl : lookupL eqv t.toList key with
+  | none =>
+    -- nothing to delete
+    have hab := (lookup_none_iff hk t hinv key).mp hl
+    have hsame : ∀ q, lookupL eqv t.toList q = if eqv key q then none else lookupL eqv t.toList q := by
+      intro q
+      cases hq : eqv key q with
+      | false => simp
+      | true =>
+        simp only [if_true]
+        apply (lookup_none_iff hk t hinv q).mpr
+        intro j k v hj
+        cases hkq : eqv k q with
+        | false => rfl
+        | true =>
+          have := hab j k v hj
+          have h2 := hk.trans k q key hkq (hk.symm key q hq)
+          rw [this] at h2; cases h2
+    simp only [delete]
+    by_cases he : t.elements = 0
+    · exact ⟨t, false, by simp [he], hinv, rfl, rfl, hsame⟩
+    · simp only [he, if_false]
+      have hc : 0 < t.cap := by
+        have := count_total t.slots
+        have := hinv.elems
+        simp only [Tbl.cap]; omega
+      obtain ⟨r, hr, hspec⟩ := index_absent (hash := hash) t key hc hab
+      rw [hr]
+      cases r with
+      | none => exact ⟨t, false, rfl, hinv, rfl, rfl, hsame⟩
+      | some x =>
+        obtain ⟨_, _, _, _, hx⟩ := hspec
+        rcases hx with hx | hx <;> exact ⟨t, false, by simp [hx], hinv, rfl, rfl, hsame⟩
+  | some v =>
+    obtain ⟨j, k, hj, he⟩ := (lookup_iff hk t hinv key v).mp hl
+    have hjlt : j < t.slots.length := lt_of_getElem?' hj
+    have hpos := countLive_pos_of_live t.slots j k v hj
+    have hne : ¬ t.elements = 0 := by rw [hinv.elems]; omega
+    have hget : ∀ x, (t.slots.set j Slot.tomb)[x]? = if j = x then some Slot.tomb else t.slots[x]? := by
+      intro x; rw [List.getElem?_set]; simp [hjlt]
+    have hcl := countLive_set t.slots j (Slot.tomb : Slot K V) hjlt
+    have hct := countTomb_set t.slots j (Slot.tomb : Slot K V) hjlt
+    have hjv : t.slots[j] = Slot.live k v := by
+      have := List.getElem?_eq_getElem hjlt; rw [this] at hj; exact Option.some.inj hj
+    rw [hjv] at hcl hct
+    simp only [isLive, isTomb] at hcl hct
+    have hinv' : Inv hash eqv ⟨t.slots.set j Slot.tomb, t.elements - 1, t.occupied⟩ := by
+      refine ⟨?_, ?_, ?_, ?_⟩
+      · simp only; rw [hinv.elems]; omega
+      · simp only; rw [hinv.occ]; omega
+      · intro a b k1 k2 v1 v2 ha hb hee
+        simp only at ha hb
+        rw [hget] at ha hb
+        by_cases hja : j = a
+        · rw [if_pos hja] at ha; cases ha
+        · by_cases hjb : j = b
+          · rw [if_pos hjb] at hb; cases hb
+          · rw [if_neg hja] at ha; rw [if_neg hjb] at hb
+            exact hinv.nodup a b k1 k2 v1 v2 ha hb hee
+      · intro a k1 v1 ha pre post hpath x hx
+        simp only [Tbl.cap, List.length_set] at hpath
+        simp only at ha ⊢
+        rw [hget] at ha ⊢
+        by_cases hjx : j = x
+        · rw [if_pos hjx]; simp
+        · rw [if_neg hjx]
+          by_cases hja : j = a
+          · rw [if_pos hja] at ha; cases ha
+          · rw [if_neg hja] at ha
+            exact hinv.reach a k1 v1 ha pre post hpath x hx
+    refine ⟨_, true, by simp only [delete, hne, if_false, index_found hk t hinv key k v j hj he, hj], hinv',
+      by simp [Tbl.cap], rfl, ?_⟩
+    intro q
+    cases hq : eqv key q with
+    | true =>
+      simp only [if_true]
+      apply (lookup_none_iff hk _ hinv' q).mpr
+      intro a k1 v1 ha
+      simp only at ha
+      rw [hget] at ha
+      by_cases hja : j = a
+      · rw [if_pos hja] at ha; cases ha
+      · rw [if_neg hja] at ha
+        cases hkq : eqv k1 q with
+        | false => rfl
+        | true =>
+          exfalso
+          have h1 : eqv k1 k = true :=
+            hk.trans k1 q k hkq (hk.trans q key k (hk.symm key q hq) (hk.symm k key he))
+          exact hja (hinv.nodup a j k1 k v1 v ha hj h1).symm
+    | false =>
+      simp only [Bool.false_eq_true, if_false]
+      apply option_ext
+      intro w
+      rw [lookup_iff hk _ hinv' q w, lookup_iff hk t hinv q w]
+      constructor
+      · rintro ⟨a, k1, ha, hke⟩
+        simp only at ha
+        rw [hget] at ha
+        by_cases hja : j = a
+        · rw [if_pos hja] at ha; cases ha
+        · rw [if_neg hja] at ha; exact ⟨a, k1, ha, hke⟩
+      · rintro ⟨a, k1, ha, hke⟩
+        have hja : j ≠ a := by
+          intro e; subst e
+          rw [hj] at ha; injection ha with ha; injection ha with h1 _; subst h1
+          have := hk.trans key k q (hk.symm k key he) hke
+          rw [hq] at this; cases this
+        exact ⟨a, k1, by simp only; rw [hget, if_neg hja]; exact ha, hke⟩
+
+end Elk.HashMap
